@@ -40,6 +40,9 @@ OP_MAP = {
     "min": "fmin",
     "max": "fmax",
     "abs": "fabs",
+    "asin": "arcsin",
+    "acos": "arccos",
+    "atan": "arctan",
     "and": "__mul__",
     "or": "__add__",
 }
@@ -259,6 +262,8 @@ class Generator(TreeListener):
             src = self.get_mx(tree.operands[0])
             for i in tree.operands[1:]:
                 src = ca.mtimes(src, self.get_mx(i))
+        elif op == "atan2" and n_operands == 2:
+            src = ca.atan2(self.get_mx(tree.operands[0]), self.get_mx(tree.operands[1]))
         elif op == "transpose" and n_operands == 1:
             src = self.get_mx(tree.operands[0]).T
         elif op == "sum" and n_operands == 1:
